@@ -18,7 +18,7 @@ import (
 )
 
 func init() {
-	register(&Prop{ID: "C30", Module: "V.C30.Check", Gen: c30Gen, Quick: 900, Thorough: 12000, Shard: 40})
+	register(&Prop{ID: "C30", Module: "V.C30.Check", Gen: c30Gen, Quick: 600, Thorough: 12000, Shard: 60})
 }
 
 func c30Recover(c *Case) {
